@@ -30,6 +30,8 @@ import (
 
 var transports = []string{"tcp-accepted", "tcp-dialed-timeout", "udp-addconn", "tcp-addconn", "unix-addconn", "udp-dialasync", "tcp-dialed", "udp-session"}
 
+var streamTransports = []string{"tcp-accepted", "tcp-dialed-timeout", "tcp-addconn", "unix-addconn", "tcp-dialed"}
+
 func isUDP(tr string) bool { return len(tr) >= 3 && tr[:3] == "udp" }
 
 const udpSessionIdle = time.Hour
